@@ -10,6 +10,8 @@ import Driver.Dot
 import Driver.Crash
 import Driver.Conc
 import Driver.Lua
+import Driver.Retention
+import Driver.Rest
 open Driver
 
 /-
@@ -30,5 +32,7 @@ def main (args : List String) : IO UInt32 := do
   | ["crash"] => runLoop Driver.CrashMode.step Driver.CrashMode.init
   | ["lin"] => runLoop Driver.ConcMode.step ()
   | ["lua"] => runLoop Driver.LuaMode.step ()
+  | ["ret"] => runLoop Driver.RetMode.step Driver.RetMode.init
+  | ["rest"] => runLoop Driver.RestMode.step Driver.RestMode.init
   | _ => IO.eprintln s!"unknown mode {args}"; return 2
   return 0
